@@ -33,7 +33,7 @@ import (
 func init() {
 	Register(&Rule{ID: "R-ESC-4", Props: []string{"C18"}, Floor: 2,
 		Doc:      "every return of EscapeString / EscapeIdentifier (or of the helper of lib/option holding their table) that yields the input string unchanged is unreachable for a string containing any key rune of the escape table extracted by R-ESC-1: the guard of the shortcut — a scan loop over the bytes/runes with comparisons against constants and constant-bound parameters, strings.Contains*/Index*, len tests — is evaluated per key, proving exclusion for all strings containing the key or exhibiting the one-rune string as counter-example; an escaper without such a return yields one discharged obligation",
-		Controls: []string{"CtlEscapeFastPathForgetsBackslash"},
+		Controls: []string{"CtlEscapeFastPathForgetsBackslash", "CtlEscapeFastPathHelperForgetsQuote"},
 		Run:      ruleEsc4})
 }
 
@@ -43,12 +43,18 @@ func ruleEsc4(c *Ctx) {
 			fxCheckShortcuts(c, fn)
 		}
 	}
+	start := len(c.Obs)
+	var neg []string
 	for _, fn := range fxCtlFuncs(c) {
 		if strings.HasPrefix(fn.Name(), "CtlEscapeFastPath") || strings.HasPrefix(fn.Name(), "okEscapeFastPath") {
 			c.Touch(fn)
 			fxCheckShortcuts(c, fn)
+			if strings.HasPrefix(fn.Name(), "ok") {
+				neg = append(neg, fn.Name()+":")
+			}
 		}
 	}
+	c.negControls(start, neg...)
 }
 
 func fxStringParam(fn *ssa.Function) *ssa.Parameter {
